@@ -185,8 +185,16 @@ Definition t32_ldw_table : list (entry (option Z)) := [
    preload hints, stated separately) ---------- *)
 Local Notation RC c := (LRet (Val (Some c))) (only parsing).
 Definition t32_ldb_table : list (entry (res (option Z))) := [
+  row "xxxxxxx 0x xxx 1111 1111 xxxxxx xxxxxx" (RC enc_PldLiteralT1);
+  row "xxxxxxx 1x xxx 1111 1111 xxxxxx xxxxxx" (LRet (Err ENotImpl));            (* PLI (literal) *)
   row "xxxxxxx 0x xxx 1111 xxxx xxxxxx xxxxxx" (RC enc_LdrbLiteralT1);
   row "xxxxxxx 1x xxx 1111 xxxx xxxxxx xxxxxx" (RC enc_LdrsbLiteralT1);
+  row "xxxxxxx 00 xxx xxxx 1111 000000 xxxxxx" (RC enc_PldRegisterT1);
+  row "xxxxxxx 00 xxx xxxx 1111 1100xx xxxxxx" (RC enc_PldImmediateT2);
+  row "xxxxxxx 01 xxx xxxx 1111 xxxxxx xxxxxx" (RC enc_PldImmediateT1);
+  row "xxxxxxx 10 xxx xxxx 1111 000000 xxxxxx" (LRet (Err ENotImpl));            (* PLI (register) *)
+  row "xxxxxxx 10 xxx xxxx 1111 1100xx xxxxxx" (LRet (Err ENotImpl));            (* PLI (immediate) *)
+  row "xxxxxxx 11 xxx xxxx 1111 xxxxxx xxxxxx" (LRet (Err ENotImpl));            (* PLI (immediate) *)
   row "xxxxxxx 00 xxx xxxx xxxx 000000 xxxxxx" (RC enc_LdrbRegisterT2);
   row "xxxxxxx 00 xxx xxxx xxxx 1xx1xx xxxxxx" (RC enc_LdrbImmediateThumbT3);
   row "xxxxxxx 00 xxx xxxx xxxx 1100xx xxxxxx" (RC enc_LdrbImmediateThumbT3);
